@@ -392,6 +392,16 @@ def run(ctx):
         # (the facts at the test that decides to give up: the body's own self.cancel() changes the state afterwards)
         decide = [i_ for i_ in ast.walk(jn) if isinstance(i_, ast.If) and any(x is r_ for b_ in i_.body for x in ast.walk(b_))]
         at = min(decide, key=lambda i_: sum(1 for _ in ast.walk(i_))) if decide else r_
+        if not decide:
+            # the decision written as a guard clause (`if <keep waiting>: continue` .. cancel .. raise): the facts are those in force right
+            # behind the last guard clause in front of the raise
+            for blk_ in [b_ for n_ in ast.walk(jn) for b_ in (getattr(n_, "body", None), getattr(n_, "orelse", None)) if isinstance(b_, list)]:
+                if any(x is r_ for x in blk_):
+                    k_r = next(k_ for k_, x in enumerate(blk_) if x is r_)
+                    guards_ = [k_ for k_ in range(k_r) if isinstance(blk_[k_], ast.If) and not blk_[k_].orelse and blk_[k_].body
+                               and isinstance(blk_[k_].body[-1], (ast.Continue, ast.Return, ast.Break))]
+                    if guards_:
+                        at = blk_[guards_[-1] + 1]
         fs = {repr(x) for x in _facts_at(jn, at)}
         ctx.ob("R2.timeout-only-while-unfinished", "application/application.py", "Application.join", "raise TimeoutError under get_app_state() != FINISHED",
                repr(_spec("self.get_app_state() != AppState.FINISHED")) in fs,
@@ -727,6 +737,29 @@ def run(ctx):
             chd = [c for c in calls(f) if (call_name(c) or "").split(".")[-1] == "chdir"]
             if not chd:
                 continue
+            # a context manager CLASS: __enter__ saves the directory in an attribute and changes it, __exit__ (which Python runs on every way
+            # out of the `with` block) changes back to that attribute on every way through it
+            if qual.endswith((".__enter__", ".__exit__")) and qual.count(".") == 1:
+                cls_ = qual.split(".")[0]
+                en_, ex_ = s.funcs.get(f"{cls_}.__enter__"), s.funcs.get(f"{cls_}.__exit__")
+                if en_ is not None and ex_ is not None:
+                    if qual.endswith(".__exit__"):
+                        continue
+                    saved_attrs = {t.attr for st in stmts(en_) if isinstance(st, ast.Assign) and isinstance(st.value, ast.Call)
+                                   and (call_name(st.value) or "").split(".")[-1] == "getcwd" for t in st.targets
+                                   if isinstance(t, ast.Attribute) and isinstance(t.value, ast.Name) and t.value.id == "self"}
+                    gx = CFG(ex_, io_may_raise)
+                    back = {n.id for n in gx.nodes if n.ast is not None and n.kind == "stmt" and any(
+                        (call_name(c) or "").split(".")[-1] == "chdir" and c.args and isinstance(c.args[0], ast.Attribute) and c.args[0].attr in saved_attrs
+                        for c in head_calls(n.ast))}
+                    first_save = min([st.lineno for st in stmts(en_) if isinstance(st, ast.Assign) and isinstance(st.value, ast.Call)
+                                      and (call_name(st.value) or "").split(".")[-1] == "getcwd"] or [10 ** 9])
+                    n_chdir += 1
+                    ctx.ob("R3.chdir-restored", rel, qual, chd[0],
+                           bool(saved_attrs) and bool(back) and gx.path(gx.entry.id, gx.exit.id, blocked=back) is None and first_save < chd[0].lineno,
+                           f"context manager {cls_}: __enter__ must save the directory before it changes it and __exit__ must change back to the saved one "
+                           "on every way through", chd[0].lineno)
+                    continue
             saved = set()
             for st in stmts(f):
                 if isinstance(st, ast.Assign) and isinstance(st.value, ast.Call) and (
